@@ -12,9 +12,11 @@ MODULES = ["c05", "c03", "c12", "builders", "c19", "c08", "kernels", "printer", 
 
 
 class Claim:
-    def __init__(self, name, prop, tier, fn, text, bound, configs=("fast",), crate="lexpr", also=()):
+    def __init__(self, name, prop, tier, fn, text, bound, configs=("fast",), crate="lexpr", also=(), confirm=()):
         self.name, self.prop, self.tier, self.fn = name, prop, tier, fn
         self.also = tuple(also)   # further properties this claim is evidence for
+        # native confirmation domains (mirsym.confirm) tried when a counterexample has no reproducing model-directed replay
+        self.confirm = tuple(confirm)
         self.text, self.bound, self.configs, self.crate = text, bound, configs, crate
 
 
@@ -75,12 +77,37 @@ class Result:
         self.solver_s += engine.solver_s
         self.paths += len(engine.terminals)
         self.functions |= set(short_fn(n) for n in engine.functions_touched)
+        for u in sorted(getattr(engine, "unmodelled", ())):
+            a = "unmodelled library call over-approximated by an arbitrary result: " + u
+            if a not in self.assumptions:
+                self.assumptions.append(a)
 
 
 def short_fn(n):
     import re
     n = re.sub(r"<impl at ([^:>]+):(\d+):[^>]*>", lambda m: "<impl %s:%s>" % (m.group(1).split("/")[-1], m.group(2)), n)
     return n
+
+
+# claim -> native confirmation domains (see mirsym/confirm.py)
+DEFAULT_CONFIRM = {
+    "c01_r6rs_escape": ("strings",), "c02_elisp_escape": ("strings",), "c01_escape_composition": ("strings",),
+    "c01_r6rs_char": ("chars",), "c02_elisp_char": ("chars",),
+    "c03_kernel_totality": ("strings", "chars", "truncation", "tokens"), "c19_kernel_eof": ("truncation", "strings", "chars"),
+    "c08_token_dispatch": ("tokens", "numbers"), "c08_list_protocol": ("lists", "tokens"), "c03_builder_depth": ("lists",),
+    "c01_byte_list": ("lists",), "c10_builder_lockstep": ("lists", "tokens"), "c10_top_lockstep": ("lists", "toplevel"),
+    "c12_whitespace": ("lists", "toplevel"), "c12_adapters": ("toplevel", "lists"),
+    "c19_tables": ("truncation",), "c19_truncation_numbers": ("truncation", "numbers"), 
+    "c03_depth_next_value": ("lists",), "c03_depth_next_datum": ("lists",), "c03_initial_depth": ("lists",),
+    "c05_num_literal_step": ("numbers",), "c05_num_tail": ("numbers",), "c05_long_integer_step": ("numbers",), "c05_decimal_step": ("numbers",),
+    "c05_exponent_step": ("numbers",), "c05_exponent_overflow": ("numbers",), "c05_f64_fast_finite": ("numbers",), "c05_f64_fast_exact": ("numbers",),
+    "c05_f64_std": ("numbers",),
+    "c07_leaf_emissions": ("print",), "c07_escape_emissions": ("print",), "c07_char_emissions": ("print",),
+    "c01_print_list_structure": ("print",),
+    "c14_de_kind_tables": ("serde",), "c14_option": ("serde",), "c18_access_steps": ("serde",), "c04_ser_scalars": ("serde",),
+    "c18_error_category": ("serde",), "c15_alist_lookup": ("alist",), "c07_write_discipline": ("printcheck",),
+    "c06_symbol_scanners": ("tokens", "lists"), "c06_string_scanners": ("strings",), "c17_unchecked_sites": ("strings", "tokens"),
+}
 
 
 def all_claims():
@@ -108,6 +135,11 @@ def run(prop, tier, seed, kf_keys, only=None):
             try:
                 cx = C.load(c.crate, fast_float=(cfg == "fast"))
                 c.fn(cx, r, set(kf_keys))
+                domains = c.confirm or DEFAULT_CONFIRM.get(c.name, ())
+                if r.violations and domains and not any(v.get("replayed") for v in r.violations):
+                    from . import confirm as CF
+                    out = CF.confirm(domains, r, fast=(cfg == "fast"))(None)
+                    r.violations[0].update(out)
             except Unsupported as e:
                 r.error = "unsupported: %s" % e
             except Exception as e:  # noqa
